@@ -31,7 +31,7 @@ func init() {
 		Run: run,
 		Floors: func(t string) map[string]int64 {
 			return map[string]int64{"cfg.entirely_inside": 100, "cfg.entirely_outside_bbox_overlap": 100, "cfg.entirely_outside_bbox_disjoint": 100, "cfg.crosses_hole": 100, "cfg.enters_several_times": 200, "cfg.two_vertex_line": 100,
-				"recv.MultiLineString": 300, "arg.*Bounds": 100, "arg.MultiPolygon": 300, "arg.Polygon": 300, "result.vertices_checked": 5000, "line.long": 100}
+				"recv.MultiLineString": 300, "arg.*Bounds": 100, "arg.MultiPolygon": 300, "arg.Polygon": 300, "result.vertices_checked": 5000, "line.long": 100, "line.axis_parallel": 500}
 		},
 	})
 }
@@ -54,6 +54,21 @@ func genLine(r *gen.R, cx, cy, rad float64, n int, shape string) []geom.Point {
 			th += r.Range(0.3, 0.9)
 			rr := rad * (0.05 + 0.06*float64(i)) * r.Range(0.98, 1.02)
 			pts = append(pts, geom.Point{X: cx + rr*math.Cos(th), Y: cy + rr*math.Sin(th)})
+		}
+	case "axis":
+		// axis-parallel lines (all vertices share one ordinate or abscissa) and staircases
+		x, y := cx+r.Range(-1, 1)*rad, cy+r.Range(-1, 1)*rad
+		mode := r.Intn(3)
+		pts = append(pts, geom.Point{X: x, Y: y})
+		for i := 1; i < n; i++ {
+			st := rad * r.Range(0.1, 0.6)
+			switch {
+			case mode == 0 || (mode == 2 && i%2 == 1):
+				x += st
+			default:
+				y += st
+			}
+			pts = append(pts, geom.Point{X: x, Y: y})
 		}
 	default: // simple walk
 		for len(pts) < n {
@@ -174,7 +189,10 @@ func run(c *core.Ctx, idx int) {
 			n = r.IntRange(60, 250) // long lines
 			c.Count("line.long")
 		}
-		shape := []string{"monotone", "walk", "spiral", "walk"}[r.Intn(4)]
+		shape := []string{"monotone", "walk", "spiral", "walk", "axis"}[r.Intn(5)]
+		if shape == "axis" {
+			c.Count("line.axis_parallel")
+		}
 		lcx, lcy, lrad := ox, oy, scale*r.Range(0.5, 2)
 		switch cfgHint {
 		case 0: // likely entirely inside
@@ -193,7 +211,9 @@ func run(c *core.Ctx, idx int) {
 		if nl > 1 {
 			lcy += (float64(k) - float64(nl-1)/2) * scale * 1.2
 			lrad = math.Min(lrad, scale*0.5)
-			shape = "monotone"
+			if shape != "axis" {
+				shape = "monotone"
+			}
 		}
 		l := genLine(r, lcx, lcy, lrad, n, shape)
 		if nl > 1 {
